@@ -27,11 +27,12 @@ static void flag_persistence(const int w[N][N], Diagram& D) {
   int val[NS]; bool in[NS];
   for (int m = 1; m < NS; m++) { in[m] = true; val[m] = 0; for (int i = 0; i < N; i++) for (int j = i + 1; j < N; j++) if ((m >> i & 1) && (m >> j & 1)) { if (w[i][j] < 0) in[m] = false; else if (w[i][j] > val[m]) val[m] = w[i][j]; } }
   int ord[NS], n = 0; for (int m = 1; m < NS; m++) if (in[m]) ord[n++] = m;
-  for (int a = 0; a < n; a++) for (int b = 0; b + 1 < n - a; b++) { int x = ord[b], y = ord[b + 1]; bool gt = val[x] > val[y] || (val[x] == val[y] && (pcnt(x) > pcnt(y) || (pcnt(x) == pcnt(y) && x > y))); if (gt) { ord[b] = y; ord[b + 1] = x; } }
+  { int cntv[VMAXV + 1][N + 1]; for (int v = 0; v <= VMAXV; v++) for (int c = 0; c <= N; c++) cntv[v][c] = 0; for (int i = 0; i < n; i++) cntv[val[ord[i]]][pcnt(ord[i])]++;   /* counting sort by (value, dimension, mask) */
+    int start[VMAXV + 1][N + 1], acc = 0; for (int v = 0; v <= VMAXV; v++) for (int c = 0; c <= N; c++) { start[v][c] = acc; acc += cntv[v][c]; } int tmp[NS]; for (int i = 0; i < n; i++) { int m = ord[i]; tmp[start[val[m]][pcnt(m)]++] = m; } for (int i = 0; i < n; i++) ord[i] = tmp[i]; }
   int pos[NS]; for (int i = 0; i < n; i++) pos[ord[i]] = i;
-  static unsigned long long col[NS]; int low[NS]; bool paired[NS]; for (int j = 0; j < n; j++) paired[j] = false;
+  static unsigned long long col[NS]; int low[NS], owner[NS]; bool paired[NS]; for (int j = 0; j < n; j++) { paired[j] = false; owner[j] = -1; }
   for (int j = 0; j < n; j++) { col[j] = 0; int m = ord[j]; if (pcnt(m) > 1) for (int v = 0; v < N; v++) if (m >> v & 1) col[j] |= 1ull << pos[m & ~(1 << v)];
-    low[j] = -1; while (col[j]) { int l = 63 - __builtin_clzll(col[j]); int k = -1; for (int q = 0; q < j; q++) if (col[q] && low[q] == l) k = q; if (k < 0) { low[j] = l; break; } col[j] ^= col[k]; }
+    low[j] = -1; while (col[j]) { int l = 63 - __builtin_clzll(col[j]); int k = owner[l]; if (k < 0) { low[j] = l; owner[l] = j; break; } col[j] ^= col[k]; }
     if (low[j] >= 0) { paired[low[j]] = true; paired[j] = true; int b = val[ord[low[j]]], e = val[ord[j]]; if (b < e) D.cnt[pcnt(ord[low[j]]) - 1][b][e]++; } }
   for (int j = 0; j < n; j++) if (!paired[j]) D.cnt[pcnt(ord[j]) - 1][val[ord[j]]][VMAXV]++;
 }
@@ -55,9 +56,13 @@ extern "C" void harness() {
 #endif
 #ifdef VP_FORKW   /* one path per concrete weight assignment (enumerated by the solver): for the 6-vertex units */
     W xw = (W)vp_double_grid_forked("w", 1.0, 1.0, VP_WMAX);
+#ifdef VP_FIXTRI    /* slice of the weight space: the three edges of the triangle {0,1,2} have the weight VP_FIXTRI */
+    if (j <= 2) vp_assume(xw == (W)VP_FIXTRI);
+#endif
 #else
     W xw = (W)vp_double_grid("w", 1.0, 1.0, VP_WMAX);
-#endif int x = 0; if (present) { for (int q = 1; q <= VP_WMAX; q++) if (xw == (W)q) x = q; }
+#endif
+    int x = 0; if (present) { for (int q = 1; q <= VP_WMAX; q++) if (xw == (W)q) x = q; }
     w[i][j] = w[j][i] = present ? x : -1; if (present) e.emplace_back(label[i], label[j], xw);
 #else
     int x = vp_int("w", 0, VP_WMAX); w[i][j] = w[j][i] = x == 0 ? -1 : x; if (x) e.emplace_back(label[i], label[j], (W)x);
